@@ -6,7 +6,7 @@ from checks import exec_common, exec_findings
 
 
 def run(ctx):
-    exec_common.run_property(ctx, "C10", ['reusable', 'reusable', 'resize_wait', 'callback', 'resize_crash', 'resize_shrink_big'], 400, 4000, classify=exec_findings.classify)
+    exec_common.run_property(ctx, "C10", ['reusable', 'reusable', 'resize_wait', 'callback', 'resize_crash', 'resize_shrink_big', 'resize_strict', 'resize_grow_crash'], 400, 4000, classify=exec_findings.classify)
 
 
 if __name__ == "__main__":
